@@ -399,7 +399,7 @@ func (c09) Execute(env *Env) {
 		for _, s := range searches {
 			where := fmt.Sprintf("client %d search %s during [%d,%d]", s.client, jsonStr(s.req.Query), s.inv, s.ret)
 			if s.ans.Err != "" {
-				env.Violate("spurious-error", "concurrent-search-error:"+errSigStr(s.ans.Err), "%s failed: %s", where, s.ans.Err)
+				env.Violate("spurious-error", "concurrent-search-error:"+errSigSite(s.ans.Err), "%s failed: %s", where, s.ans.Err)
 				return
 			}
 			// states the search may have observed: the last one committed before it began up to the last one committed before it returned
@@ -486,7 +486,7 @@ func (c09) Execute(env *Env) {
 				byKey[id] = append(byKey[id], porcupine.Operation{ClientId: s.client, Input: regInput{}, Call: int64(s.inv), Output: v, Return: int64(s.ret)})
 			}
 		}
-		for id, ops := range byKey {
+		for id, ops := range detRange(byKey) {
 			// the register starts with the seeded value
 			init := docVersion(initial.Docs[PID(id)])
 			if _, ok := initial.Docs[PID(id)]; !ok {
@@ -546,4 +546,16 @@ func (c09) Execute(env *Env) {
 	env.Stat("searches-overlapping-a-commit", overlapped)
 	env.SetNonTrivial(overlapped >= 1)
 	env.SetStateHash(model.StateKey())
+}
+
+// errSigSite is errSigStr, but an error that ends in the bare cache sentinel "not
+// found" keeps the segment before it too (the call site that missed), so that a
+// listed finding names one site and not every cache miss.
+func errSigSite(msg string) string {
+	if i := lastIndex(msg, ": "); i >= 0 && msg[i+2:] == "not found" {
+		if j := lastIndex(msg[:i], ": "); j >= 0 {
+			return stripDigits(msg[j+2:])
+		}
+	}
+	return errSigStr(msg)
 }
